@@ -24,7 +24,7 @@ EXPLANATION = ('Preservation obligations of the attachment forest, checked at ea
                'an abstract heap (exact write sets per path), must-pass / guard rules for the detach paths of freeSlot and PUT_COPY, '
                'who-may-write on the three link fields, and the base-chain rebuild at finalisation.  The forest property itself under '
                'arbitrary rule sequences is an induction over these steps and is not mechanised.')
-FLOORS = {'TREEWRITERS': 5, 'ATTACH': 6, 'LISTOPS': 8, 'DETACH': 8, 'BASECHAIN': 3}
+FLOORS = {'TREEWRITERS': 5, 'ATTACH': 6, 'LISTOPS': 9, 'DETACH': 9, 'BASECHAIN': 3}
 
 
 def treewriters(run, fx):
@@ -602,6 +602,15 @@ def run(run):
     except O_.AnalysisBroken as ex:
         run.broken('LISTOPS', 'child / removeChild on every small chain (interpreted)', str(ex), '')
     detach(run, vm)
+    try:
+        cases_, bad_ = freeslot_exec(run, fx)
+        fs_ = fx.one('graphite2::Segment::freeSlot')
+        if bad_:
+            run.violated('DETACH', 'freeSlot detaches the slot and frees its children (interpreted)', fs_.where(), bad_)
+        else:
+            run.held('DETACH', 'freeSlot detaches the slot and frees its children (interpreted)', fs_.where(), '%d abstract executions' % cases_)
+    except O_.AnalysisBroken as ex:
+        run.broken('DETACH', 'freeSlot detaches the slot and frees its children (interpreted)', str(ex), '')
     basechain(run, fx)
     lk = fx.one('graphite2::Segment::linkClusters')
     try:
@@ -691,4 +700,75 @@ def listops_exec(run, fx, maxn=4):
                     return cases, '%s: returns %s and leaves the chain %s; expected %s and %s' % (desc, res, got, wres, want)
                 if op == 'removeChild' and isinstance(what, int) and kids[what][PS + 'm_sibling'].rec is not None:
                     return cases, '%s: the removed child keeps its sibling link (#%s): it still leads into this parent\'s chain' % (desc, kids[what][PS + 'm_sibling'].rec['#'])
+    return cases, None
+
+
+def freeslot_exec(run, fx):
+    """DETACH by bounded execution: Segment::freeSlot (with Slot::removeChild, attachTo, the Slot constructor it re-runs in place) is
+    interpreted for a slot at every position among 1..3 children of a parent (or without a parent), itself having 0..2 children, each of
+    which either names it as parent or -- the case of a TEMP_COPY's inherited links -- names another slot.  Afterwards the parent's chain
+    is the old one without the slot, every child that named the slot is a base, a child that named another slot is untouched, and the
+    freed slot carries no tree link."""
+    from . import ordint as O
+    import itertools
+    PS, PG = 'graphite2::Slot::', 'graphite2::Segment::'
+    srec = fx.record('graphite2::Slot')
+    fn = fx.one('graphite2::Segment::freeSlot')
+
+    def mkslot(k):
+        s = O.Rec()
+        for f in srec['fields']:
+            s[PS + f['n']] = O.Ptr(None) if f.get('ptr') else 0
+        s['#'] = k
+        s[PS + 'm_userAttr'] = O.It(O.Vec([0, 0]), 0)
+        return s
+    cases = 0
+    for nsib in range(0, 4):                      # 0 = the slot has no parent
+        for pos in range(max(nsib, 1)):
+            for kinds in itertools.chain.from_iterable(itertools.product(('own', 'foreign'), repeat=r) for r in range(0, 3)):
+                if 'foreign' in kinds and 'own' in kinds:
+                    continue            # not a state of a well-formed forest: a chain is all the slot's own children, or (a TEMP_COPY) all the original's
+                S = mkslot(10)
+                other = mkslot(60)
+                P = mkslot(50) if nsib else None
+                sibs = []
+                if P is not None:
+                    sibs = [S if i == pos else mkslot(20 + i) for i in range(nsib)]
+                    for i, x in enumerate(sibs):
+                        x[PS + 'm_parent'] = O.Ptr(P)
+                        x[PS + 'm_sibling'] = O.Ptr(sibs[i + 1]) if i + 1 < nsib else O.Ptr(None)
+                    P[PS + 'm_child'] = O.Ptr(sibs[0])
+                kids = [mkslot(30 + i) for i in range(len(kinds))]
+                for i, c in enumerate(kids):
+                    c[PS + 'm_parent'] = O.Ptr(S if kinds[i] == 'own' else other)
+                    c[PS + 'm_sibling'] = O.Ptr(kids[i + 1]) if i + 1 < len(kids) else O.Ptr(None)
+                S[PS + 'm_child'] = O.Ptr(kids[0]) if kids else O.Ptr(None)
+                seg = O.Rec({PG + 'm_first': O.Ptr(mkslot(70)), PG + 'm_last': O.Ptr(mkslot(71)), PG + 'm_freeSlots': O.Ptr(None), PG + 'm_silf': O.Ptr(O.Rec()), PG + 'm_face': O.Ptr(O.Rec())})
+                it = O.Interp(fx, natives={'memset': lambda I, f, e, obj, a: None, 'graphite2::Silf::numUser': lambda I, f, e, obj, a: 2})
+                it.MAX_STEPS = 4000
+                desc = 'freeSlot of %s with children %s' % ('a base' if P is None else 'child %d of %d' % (pos + 1, nsib), list(kinds) or 'none')
+                cases += 1
+                try:
+                    it.call(fn, seg, [O.Ptr(S)])
+                except O.Violation as v:
+                    return cases, '%s: %s (%s)' % (desc, v.what, v.loc)
+                if P is not None:
+                    out, c, seen = [], P[PS + 'm_child'], set()
+                    while isinstance(c, O.Ptr) and c.rec is not None and id(c.rec) not in seen and len(out) < 8:
+                        seen.add(id(c.rec))
+                        out.append(c.rec['#'])
+                        c = c.rec[PS + 'm_sibling']
+                    want = [x['#'] for x in sibs if x is not S]
+                    if out != want:
+                        return cases, '%s: the parent\'s child chain is %s afterwards, expected %s (the freed slot goes back to the pool and is handed out again)' % (desc, out, want)
+                for i, c in enumerate(kids):
+                    p_ = c[PS + 'm_parent'].rec
+                    if kinds[i] == 'own' and p_ is not None:
+                        return cases, '%s: child #%d still names the freed slot as its parent' % (desc, c['#'])
+                    if kinds[i] == 'foreign' and p_ is not other:
+                        return cases, '%s: child #%d, which belongs to another slot (the freed slot is a copy), lost its parent' % (desc, c['#'])
+                for f_ in ('m_parent', 'm_child', 'm_sibling'):
+                    v_ = S[PS + f_]
+                    if isinstance(v_, O.Ptr) and v_.rec is not None:
+                        return cases, '%s: the freed slot keeps %s = #%s' % (desc, f_, v_.rec['#'])
     return cases, None
